@@ -264,6 +264,8 @@ def level_event_nd(cp, pms, lvl, uni, d, cf):
                 def reset_sampling_cost(self):
                     pass
             consuming = [u for inc, u in zip(incs, us) if any(v % 2 for v in inc)]
+            if not hasattr(cp, "_uniform"):
+                raise AttributeError("'CouplingProcessLevyCopula' object has no attribute '_uniform'")
             cp._uniform = SeqU(consuming)
             try:
                 vals = sim._coupling_states_for_a_slice([tuple(i) for i in incs])
@@ -293,6 +295,8 @@ def run_copula_coupling(tid, kind, grid, atoms, d, method, sigmas, a_us, maxlvl)
             m.levy_triplet.sigma = sg * U
         cp = CouplingProcessLevyCopula(levy_copula_model=model, grid=grid, method=method)
         uni = OneUniform()
+        if not hasattr(cp, "_uniform"):
+            raise AttributeError("'CouplingProcessLevyCopula' object has no attribute '_uniform'")
         cp._uniform = uni
         product = product_for_init()
         cp.initialisation(product)
